@@ -63,6 +63,10 @@ type c14In struct {
 	// DefaultAuthentication instead of the operation's AuthInfo.
 	Base Bs `json:"base,omitempty"`
 	Pat  Bs `json:"pat,omitempty"`
+	// how the request built by the client reaches the wire (all kinds that go through the client): "" = Runtime.CreateHttpRequest and
+	// req.Write; "submit" = Runtime.Submit through a capturing round tripper; "debug" = the same on a Runtime whose Debug flag is on
+	// (the request and the response are dumped to the logger on the way). The credential the server reads must not depend on it.
+	Via string `json:"via,omitempty"`
 	// kind "defaultx": the default credential crossed with every kind of writer
 	OpW  *c14W   `json:"opw,omitempty"`  // the operation's own writer (nil: none)
 	DefW *c14W   `json:"defw,omitempty"` // Runtime.DefaultAuthentication (nil: not configured)
@@ -93,6 +97,7 @@ type c14Step struct {
 	PreH   []c14KV `json:"preh,omitempty"`
 	PreQ   []c14KV `json:"preq,omitempty"`
 	Submit bool    `json:"submit,omitempty"` // through Runtime.Submit and a capturing round tripper instead of CreateHttpRequest
+	Debug  bool    `json:"debug,omitempty"`  // Runtime.Debug is on for this request (off again for the next one unless it says so too)
 }
 
 type c14StepObs struct {
@@ -158,7 +163,8 @@ func (c14) Rule() string {
 		"(none, nil from an unsupported key location, basic, bearer, key in header, key named Authorization, key in query, pass-through, compositions with and without an Authorization writer, nested, empty, with nil entries) " +
 		"and of default writer, with Authorization / key header / query parameters pre-set by the parameters; observed: every non-transport header and every query parameter received; " +
 		"defhist: 2-6 requests on one Runtime with DefaultAuthentication reassigned between them (every sequence of three settings out of {token A, token B, none} under nine patterns of plain / own AuthInfo / pre-set Authorization requests, " +
-		"sequences over bearer / basic / key in header / key in query / none, random histories of random writers), built by CreateHttpRequest or Submit; earlier client-side requests re-inspected at the end. " +
+		"sequences over bearer / basic / key in header / key in query / none, random histories of random writers), built by CreateHttpRequest or Submit (a third of the steps with Runtime.Debug on); earlier client-side requests re-inspected at the end. " +
+		"basic / basicraw / apikey / bearer / default / defaultx: one case in three is sent through Runtime.Submit and a capturing transport instead of CreateHttpRequest, half of those on a Runtime in debug mode (also enumerated per kind). " +
 		"cross: each authenticator kind (basic, key in header, key in query, bearer; plain and Ctx) on a request that carries the key's name / access_token / Authorization and the token, or another token, " +
 		"in its declared location and - also or only - in the other places: other headers, a cookie, query parameters, fields of a urlencoded or multipart form body (also under a JSON content type), for POST / PUT / PATCH / GET / DELETE; " +
 		"Non-trivial: every case in which a credential is transmitted or configured."
@@ -296,6 +302,51 @@ func (c14) Enumerate(tier string) []any {
 			}
 		}
 	}
+	// the same credentials sent through Runtime.Submit, with the Runtime's debug mode off and on
+	for _, via := range []string{"submit", "debug"} {
+		for _, op := range []bool{false, true} {
+			for _, def := range []bool{false, true} {
+				for _, pre := range []Bs{"", "Bearer PRE"} {
+					out = append(out, c14In{Kind: "default", Op: op, Def: def, Preset: pre, Via: via})
+				}
+			}
+		}
+		for i, up := range [][2]Bs{{"u", "p"}, {"", ""}, {"user@example.com", "p:w d"}, {"u", "\xff?>"}} {
+			out = append(out, c14In{Kind: "basic", U: up[0], P: up[1], Ctx: i%2 == 0, Via: via})
+		}
+		for _, loc := range []bool{true, false} {
+			for _, def := range []bool{false, true} {
+				out = append(out, c14In{Kind: "apikey", Name: "X-API-Key", InQuery: loc, V: "s3cr3t", Def: def, Via: via})
+				out = append(out, c14In{Kind: "apikey", Name: "Authorization", InQuery: loc, V: "Token raw", Def: def, Ctx: true, Via: via})
+			}
+		}
+		for mask := 0; mask < 8; mask++ {
+			form := mask % 4
+			in := c14In{Kind: "bearer", Form: form, Ctx: mask >= 4, Scopes: []Bs{"read"}, Via: via}
+			if mask&1 != 0 {
+				in.Hdr = "Bearer HDR"
+			}
+			if mask&2 != 0 {
+				in.QTok = "QRY"
+			}
+			if mask&4 != 0 && form != 0 {
+				in.FTok = "FRM"
+			}
+			out = append(out, in)
+		}
+		for _, op := range ops {
+			for _, def := range defs[:5] {
+				out = append(out, c14In{Kind: "defaultx", OpW: op, DefW: def, Via: via})
+			}
+		}
+	}
+	// histories sent through Submit with the debug mode switched on and off between the requests
+	for i, a := range kinds {
+		b := kinds[(i+1)%len(kinds)]
+		dbg := func(st c14Step, on bool) c14Step { st.Debug = on; return st }
+		out = append(out, c14In{Kind: "defhist", Steps: []c14Step{dbg(mkStep(a, 'p', true), true), dbg(mkStep(b, 'p', true), false), dbg(mkStep(a, 'O', true), true),
+			dbg(mkStep(b, 'h', true), true), dbg(mkStep(a, 'p', false), true), dbg(mkStep(a, 'p', true), false)}})
+	}
 	// every single byte as a password and as a query key value
 	for c := 0; c < 256; c++ {
 		out = append(out, c14In{Kind: "basic", U: "u", P: Bs([]byte{byte(c)}), Ctx: c%2 == 0})
@@ -424,7 +475,23 @@ func c14GenWriter(r *rand.Rand, depth int) c14W {
 	}
 }
 
-func (c14) Gen(r *rand.Rand, tier string, i int) any {
+// Gen: the case of c14GenCase; a case whose request is built by the client goes through Runtime.Submit instead of
+// CreateHttpRequest one time in three, half of those on a Runtime in debug mode.
+func (p c14) Gen(r *rand.Rand, tier string, i int) any {
+	in := c14GenCase(r, i).(c14In)
+	switch in.Kind {
+	case "basic", "basicraw", "apikey", "bearer", "default", "defaultx":
+		switch r.Intn(6) {
+		case 0:
+			in.Via = "submit"
+		case 1:
+			in.Via = "debug"
+		}
+	}
+	return in
+}
+
+func c14GenCase(r *rand.Rand, i int) any {
 	if i%6 == 5 {
 		return c14GenCross(r)
 	}
@@ -525,6 +592,7 @@ func c14GenHist(r *rand.Rand) c14In {
 			cur = pool[r.Intn(len(pool))]
 		}
 		st := c14Step{DefW: cur, Submit: r.Intn(3) == 0}
+		st.Debug = r.Intn(3) == 0
 		switch r.Intn(6) {
 		case 0:
 			w := c14GenWriter(r, 0)
@@ -552,9 +620,20 @@ func c14Wire(in c14In, auth runtime.ClientAuthInfoWriter, def runtime.ClientAuth
 	}
 	rt := client.New("api.example.com", base, []string{"http"})
 	rt.DefaultAuthentication = def
-	_, sreq, err := c14WireOnPat(rt, string(in.Pat), auth, params, consumes, false)
+	rt.Debug = in.Via == "debug"
+	if in.Via != "" {
+		rt.Transport = &c14Capture{}
+		rt.SetLogger(c14Quiet{})
+	}
+	_, sreq, err := c14WireOnPat(rt, string(in.Pat), auth, params, consumes, in.Via != "")
 	return sreq, err
 }
+
+// c14Quiet swallows what a Runtime in debug mode logs.
+type c14Quiet struct{}
+
+func (c14Quiet) Printf(string, ...interface{}) {}
+func (c14Quiet) Debugf(string, ...interface{}) {}
 
 // c14Capture is the transport of the history cases that go through Submit: it writes the request out as a connection would.
 type c14Capture struct {
@@ -661,6 +740,7 @@ func c14PreParams(preH, preQ []c14KV) func(runtime.ClientRequest) error {
 func c14RunHist(in c14In) []c14StepObs {
 	rt := client.New("api.example.com", "/", []string{"http"})
 	rt.Transport = &c14Capture{}
+	rt.SetLogger(c14Quiet{})
 	out := make([]c14StepObs, len(in.Steps))
 	type kept struct {
 		req   *http.Request
@@ -673,6 +753,7 @@ func c14RunHist(in c14In) []c14StepObs {
 		if st.DefW != nil {
 			rt.DefaultAuthentication = c14Build(*st.DefW)
 		}
+		rt.Debug = st.Debug
 		var opAuth runtime.ClientAuthInfoWriter
 		if st.OpW != nil {
 			opAuth = c14Build(*st.OpW)
@@ -1125,10 +1206,22 @@ func (c14) Category(inAny any, obsAny any) (string, bool) {
 			}
 			return "no"
 		}
-		return fmt.Sprintf("defhist/steps=%d/default-reassigned=%d/own-authinfo=%s/preset-authorization=%s/refused=%s", len(in.Steps), changes, b(own), b(preset), b(refused)), true
+		dbgs := 0
+		for _, st := range in.Steps {
+			if st.Debug && st.Submit {
+				dbgs++
+			}
+		}
+		return fmt.Sprintf("defhist/steps=%d/default-reassigned=%d/own-authinfo=%s/preset-authorization=%s/submit-in-debug-mode=%s/refused=%s", len(in.Steps), changes, b(own), b(preset), b(dbgs), b(refused)), true
 	}
 	if obs.Fail != "" {
 		return in.Kind + "/refused-by-transport", false
+	}
+	if in.Via != "" {
+		in2 := in
+		in2.Via = ""
+		cat, nt := c14{}.Category(in2, obs)
+		return cat + "/via-" + in.Via, nt
 	}
 	v := "plain"
 	if in.Ctx {
